@@ -9,10 +9,10 @@ import (
 
 // VerifRun executes one CLI invocation inside the calling simulated process:
 // a fresh command tree per invocation, the real Run closures of start, retry,
-// restart, stop, status and dry.
+// restart, stop, status, dry and scheduler.
 func VerifRun(args []string) int {
 	root := &cobra.Command{Use: "blackdagger", SilenceUsage: true, SilenceErrors: true}
-	root.AddCommand(startCmd(), stopCmd(), restartCmd(), dryCmd(), statusCmd(), retryCmd())
+	root.AddCommand(startCmd(), stopCmd(), restartCmd(), dryCmd(), statusCmd(), retryCmd(), schedulerCmd())
 	root.SetArgs(args)
 	root.SetOut(simos.Stdout)
 	root.SetErr(simos.Stderr)
